@@ -92,6 +92,8 @@ func NewClientWithLogger(
 		cancel,
 		sync.WaitGroup{},
 		sync.Mutex{},
+		nil,
+		false,
 	}
 }
 
@@ -124,8 +126,10 @@ type client struct {
 	done                             bool
 	context                          context.Context
 	cancelFunc                       context.CancelFunc
-	wg                               sync.WaitGroup // For the read loop.
-	legacyMutex                      sync.Mutex     // ATP v1 has no run IDs: one step at a time owns the connection.
+	wg                               sync.WaitGroup      // For the read loop.
+	legacyMutex                      sync.Mutex          // ATP v1 has no run IDs: one step at a time owns the connection.
+	handingOver                      chan<- schema.Input // The signal channel the read loop is sending on right now.
+	closeHandedOver                  bool                // The read loop closes that channel once the send is over.
 }
 
 func (c *client) sendCBOR(message any) error {
@@ -215,9 +219,20 @@ func (c *client) Execute(
 	if err := c.sendCBOR(workStartMsg); err != nil {
 		c.logger.Errorf("Step '%s' failed to write start work message: %v", stepData.ID, err)
 		// The peer never heard of this run, so no result will come for it. Forget the entry prepared above: a pending
-		// entry keeps the read loop, and with it Close, waiting for a result.
+		// entry keeps the read loop, and with it Close, waiting for a result. The run is over for the caller's signal
+		// channel as well: whoever reads it must see it closed, as after any other run.
 		c.mutex.Lock()
 		delete(c.runningStepResultEntries, stepData.RunID)
+		if signalChannel, found := c.runningStepEmittedSignalChannels[stepData.RunID]; found {
+			delete(c.runningStepEmittedSignalChannels, stepData.RunID)
+			if signalChannel == c.handingOver {
+				// No correct peer sends a signal for a run it was not told of, a damaged stream can. A close must not
+				// hit the send in flight: the read loop closes the channel when it is through.
+				c.closeHandedOver = true
+			} else {
+				close(signalChannel)
+			}
+		}
 		c.mutex.Unlock()
 		return NewErrorExecutionResult(fmt.Errorf("failed to write work start message (%w)", err))
 	}
@@ -469,10 +484,14 @@ func (c *client) handleSignalMessage(runtimeMessage DecodedRuntimeMessage) bool 
 	}
 	c.mutex.Lock()
 	signalChannel, found := c.runningStepEmittedSignalChannels[runtimeMessage.RunID]
+	if found {
+		c.handingOver = signalChannel
+	}
 	c.mutex.Unlock()
-	// The mutex is not held during the send below: the channel is only ever closed by this goroutine (the read loop,
-	// when it processes the run's result), so it cannot be closed prematurely, and a receiver that reacts to the signal
-	// by calling the client (another Execute, Close) would otherwise wait for the mutex while we wait for the receiver.
+	// The mutex is not held during the send below: a receiver that reacts to the signal by calling the client (another
+	// Execute, Close) would otherwise wait for the mutex while we wait for the receiver. The channel cannot be closed
+	// meanwhile: this goroutine (the read loop, when it processes the run's result) closes it, and the only other place
+	// that would leaves a channel that is being handed over to this goroutine.
 	if !found {
 		c.logger.Warningf(
 			"Step with run ID '%s' sent signal '%s'. Ignoring; signal handling is not implemented "+
@@ -487,6 +506,13 @@ func (c *client) handleSignalMessage(runtimeMessage DecodedRuntimeMessage) bool 
 	case <-c.context.Done():
 		// Close was called. The caller may have stopped listening; do not keep the read loop, and Close with it, waiting.
 	}
+	c.mutex.Lock()
+	c.handingOver = nil
+	if c.closeHandedOver {
+		c.closeHandedOver = false
+		close(signalChannel)
+	}
+	c.mutex.Unlock()
 	return false
 }
 
